@@ -43,6 +43,9 @@ GETTERS = {
     ("SecurityBase", "position"): ("none", "_position", False),
     ("SecurityBase", "bidoffer"): ("sec", "_bidoffer", False),
     ("SecurityBase", "bidoffer_paid"): ("sec", "_bidoffer_paid", False),
+    ("SecurityBase", "bidoffers_paid"): ("sec+root", "_bidoffers_paid", True),
+    ("StrategyBase", "bidoffer_paid"): ("root", "_bidoffer_paid", False),
+    ("StrategyBase", "bidoffers_paid"): ("root", "_bidoffers_paid", True),
     ("CouponPayingSecurity", "coupon"): ("root", "_coupon", False),
     ("CouponPayingSecurity", "coupons"): ("root", "_coupon_income", True),
     ("CouponPayingSecurity", "holding_cost"): ("root", "_holding_cost", False),
